@@ -1,0 +1,298 @@
+/*  verif-gc.c -- runtime-monitoring hooks for the collector         */
+/*  Included from gc.c only when compiled with -DCHIBI_VERIF.         */
+/*  Everything is inert unless a CHIBI_VERIF_* environment variable   */
+/*  asks for it; output goes to the file named by CHIBI_VERIF_LOG.    */
+/*                                                                    */
+/*  H1  red zones / poisoning (only when built with ASan)             */
+/*  H2  forced collections before selected allocations                */
+/*  H3  heap-walk checker + one event line per collection             */
+
+#include <stdio.h>
+#include <stdlib.h>
+#include <stdint.h>
+#include <stdarg.h>
+#include <string.h>
+#include <fcntl.h>
+#include <unistd.h>
+
+#if defined(__SANITIZE_ADDRESS__)
+#define VERIF_ASAN 1
+#elif defined(__has_feature)
+#if __has_feature(address_sanitizer)
+#define VERIF_ASAN 1
+#endif
+#endif
+
+#ifdef VERIF_ASAN
+#include <sanitizer/asan_interface.h>
+#define VERIF_POISON(p, n) ASAN_POISON_MEMORY_REGION((p), (n))
+#define VERIF_UNPOISON(p, n) ASAN_UNPOISON_MEMORY_REGION((p), (n))
+#else
+#define VERIF_POISON(p, n) ((void)0)
+#define VERIF_UNPOISON(p, n) ((void)0)
+#endif
+
+SEXP_API sexp_uint_t sexp_allocated_bytes (sexp ctx, sexp x);
+
+#define VERIF_FLHDR (sizeof(struct sexp_free_list_t))
+/* poison the body of a free chunk, leaving its free-list header readable */
+#define VERIF_POISON_FREE(p, n) do { if ((size_t)(n) > VERIF_FLHDR) VERIF_POISON(((char*)(p)) + VERIF_FLHDR, (size_t)(n) - VERIF_FLHDR); } while (0)
+
+/* ------------------------------------------------------------------ */
+/* logging                                                            */
+
+static int verif_log_fd_ = -2;
+
+static int verif_log_fd (void) {
+  const char *e;
+  if (verif_log_fd_ == -2) {
+    e = getenv("CHIBI_VERIF_LOG");
+    verif_log_fd_ = (e && *e) ? open(e, O_WRONLY|O_CREAT|O_APPEND|O_CLOEXEC, 0644) : -1;
+  }
+  return verif_log_fd_;
+}
+
+void sexp_verif_logf (const char *fmt, ...) {
+  char buf[1024];
+  int n, fd = verif_log_fd();
+  va_list ap;
+  if (fd < 0) return;
+  va_start(ap, fmt);
+  n = vsnprintf(buf, sizeof(buf), fmt, ap);
+  va_end(ap);
+  if (n < 0) return;
+  if (n >= (int)sizeof(buf)) n = sizeof(buf) - 1;
+  if (write(fd, buf, n) < 0) {}
+}
+
+static long verif_env_long (const char *name, long dflt) {
+  const char *e = getenv(name);
+  return (e && *e) ? atol(e) : dflt;
+}
+
+/* ------------------------------------------------------------------ */
+/* H3: heap checker and GC event log                                  */
+
+static int verif_hc_mode = -1, verif_gclog_mode = 0;
+static __thread long verif_hc_runs, verif_hc_objs, verif_hc_refs, verif_hc_fail;
+static __thread long verif_gc_events;
+static int verif_atexit_done = 0;
+static __thread long verif_alloc_count, verif_forced, verif_nsites, verif_sites_forced;
+
+static void verif_gc_report (void) {
+  if (verif_hc_mode > 0)
+    sexp_verif_logf("HEAPCHECK-SUMMARY runs=%ld objects=%ld refs=%ld failures=%ld\n",
+                    verif_hc_runs, verif_hc_objs, verif_hc_refs, verif_hc_fail);
+  if (verif_alloc_count)
+    sexp_verif_logf("GCINJ-SUMMARY allocs=%ld forced=%ld paths=%ld paths_forced=%ld\n",
+                    verif_alloc_count, verif_forced, verif_nsites, verif_sites_forced);
+}
+
+static void verif_register_atexit (void) {
+  if (!verif_atexit_done) { verif_atexit_done = 1; atexit(verif_gc_report); }
+}
+
+static const char* verif_type_name (sexp ctx, sexp x) {
+  sexp t, name;
+  if (!x || !sexp_pointerp(x) || sexp_pointer_tag(x) >= sexp_context_num_types(ctx)) return "?";
+  t = sexp_object_type(ctx, x);
+  if (!t || !sexp_pointerp(t)) return "?";
+  name = sexp_type_name(t);
+  return (name && sexp_stringp(name)) ? sexp_string_data(name) : "?";
+}
+
+#define VHC_FAIL(...) do { verif_hc_fail++; sexp_verif_logf("HEAPCHECK-FAIL " __VA_ARGS__); } while (0)
+
+static unsigned char* verif_hc_find (sexp ctx, sexp x, unsigned char **maps, size_t *idx) {
+  sexp_heap h; int k = 0;
+  for (h = sexp_context_heap(ctx); h; h = h->next, k++)
+    if ((char*)x >= (char*)sexp_heap_first_block(h) && (char*)x < (char*)sexp_heap_end(h)) {
+      *idx = ((char*)x - h->data) / sexp_heap_align(1);
+      return maps[k];
+    }
+  return NULL;
+}
+
+static void verif_hc_ref (sexp ctx, sexp owner, sexp x, unsigned char **maps, const char *what, long slot) {
+  size_t idx; unsigned char *m;
+  if (!x || !sexp_pointerp(x)) return;
+  verif_hc_refs++;
+  if ((sexp_uint_t)x & (sexp_heap_align(1)-1)) {
+    VHC_FAIL("kind=misaligned-ref slot=%s index=%ld owner_type=%s gc=%ld\n", what, slot, verif_type_name(ctx, owner), (long)sexp_context_gc_count(ctx));
+    return;
+  }
+  m = verif_hc_find(ctx, x, maps, &idx);
+  if (!m) {
+    VHC_FAIL("kind=ref-outside-heap slot=%s index=%ld owner_type=%s gc=%ld\n", what, slot, verif_type_name(ctx, owner), (long)sexp_context_gc_count(ctx));
+    return;
+  }
+  if (!(m[idx>>3] & (1 << (idx&7))))
+    VHC_FAIL("kind=dangling-ref slot=%s index=%ld owner_type=%s gc=%ld\n", what, slot, verif_type_name(ctx, owner), (long)sexp_context_gc_count(ctx));
+}
+
+static void verif_heap_check (sexp ctx) {
+  sexp_heap h; sexp p, end, t, *v; sexp_free_list q, r, prev;
+  size_t size, idx, total = 0, freeb = 0, maxfree = 0; int k, nheaps = 0; sexp_sint_t i, len;
+  long nfree = 0, nobjs = 0;
+  unsigned char **maps; struct sexp_gc_var_t *saves;
+  if (verif_hc_mode < 0) {
+    verif_hc_mode = verif_env_long("CHIBI_VERIF_HEAPCHECK", 0) ? 1 : 0;
+    verif_gclog_mode = verif_env_long("CHIBI_VERIF_GCLOG", 0) ? 1 : 0;
+    if (verif_hc_mode || verif_gclog_mode) verif_register_atexit();
+  }
+  if (!verif_hc_mode && !verif_gclog_mode) return;
+  if (!sexp_context_globals(ctx) || !sexp_vectorp(sexp_context_globals(ctx))
+      || !sexp_global(ctx, SEXP_G_TYPES) || !sexp_vectorp(sexp_global(ctx, SEXP_G_TYPES)))
+    return;                     /* context still being bootstrapped */
+  verif_gc_events++;
+  for (h = sexp_context_heap(ctx); h; h = h->next) {
+    nheaps++;
+    total += h->size;
+    for (r = h->free_list->next; r; r = r->next) {
+      freeb += r->size; nfree++;
+      if (r->size > maxfree) maxfree = r->size;
+      if (nfree > 100000000) break;
+    }
+  }
+  if (verif_hc_mode) {
+  verif_hc_runs++;
+  maps = calloc(nheaps, sizeof(*maps));
+  for (h = sexp_context_heap(ctx), k = 0; h; h = h->next, k++) {
+    maps[k] = calloc(h->size / sexp_heap_align(1) / 8 + 2, 1);
+    /* free list: sentinel, sorted, in bounds, aligned sizes, non-overlapping */
+    prev = h->free_list;
+    if ((char*)prev != h->data || prev->size != 0) VHC_FAIL("kind=sentinel-damaged gc=%ld\n", (long)sexp_context_gc_count(ctx));
+    for (r = prev->next; r; prev = r, r = r->next) {
+      if ((char*)r < (char*)sexp_heap_first_block(h) || (char*)r >= (char*)sexp_heap_end(h)) { VHC_FAIL("kind=free-chunk-outside-heap gc=%ld\n", (long)sexp_context_gc_count(ctx)); break; }
+      if (r->size == 0 || (r->size & (sexp_heap_align(1)-1)) || (char*)r + r->size > (char*)sexp_heap_end(h)) { VHC_FAIL("kind=free-chunk-bad-size size=%lu gc=%ld\n", (unsigned long)r->size, (long)sexp_context_gc_count(ctx)); break; }
+      if (prev != h->free_list && (char*)prev + prev->size > (char*)r) { VHC_FAIL("kind=free-list-unsorted-or-overlapping gc=%ld\n", (long)sexp_context_gc_count(ctx)); break; }
+    }
+    /* exact tiling by objects and free chunks */
+    p = sexp_heap_first_block(h); q = h->free_list; end = sexp_heap_end(h);
+    while (p < end) {
+      for (r = q->next; r && ((char*)r < (char*)p); q = r, r = r->next) ;
+      if ((char*)r == (char*)p) { if (r->size == 0) break; p = (sexp)(((char*)p) + r->size); continue; }
+      if (sexp_pointer_tag(p) <= 0 || sexp_pointer_tag(p) >= sexp_context_num_types(ctx)) { VHC_FAIL("kind=invalid-tag tag=%d gc=%ld\n", (int)sexp_pointer_tag(p), (long)sexp_context_gc_count(ctx)); break; }
+      size = sexp_heap_align(sexp_allocated_bytes(ctx, p));
+      if (size == 0 || (char*)p + size > (char*)end || (r && (char*)p + size > (char*)r)) { VHC_FAIL("kind=object-overlaps-next type=%s size=%lu gc=%ld\n", verif_type_name(ctx, p), (unsigned long)size, (long)sexp_context_gc_count(ctx)); break; }
+      if (sexp_markedp(p)) VHC_FAIL("kind=still-marked type=%s gc=%ld\n", verif_type_name(ctx, p), (long)sexp_context_gc_count(ctx));
+      idx = ((char*)p - h->data) / sexp_heap_align(1);
+      maps[k][idx>>3] |= (1 << (idx&7));
+      verif_hc_objs++; nobjs++;
+      p = (sexp)(((char*)p) + size);
+    }
+    if (p != end) VHC_FAIL("kind=tiling-not-exact gc=%ld\n", (long)sexp_context_gc_count(ctx));
+  }
+  /* every reference held by a live object designates the start of a live object */
+  for (h = sexp_context_heap(ctx); h; h = h->next) {
+    p = sexp_heap_first_block(h); q = h->free_list; end = sexp_heap_end(h);
+    while (p < end) {
+      for (r = q->next; r && ((char*)r < (char*)p); q = r, r = r->next) ;
+      if ((char*)r == (char*)p) { if (r->size == 0) break; p = (sexp)(((char*)p) + r->size); continue; }
+      if (sexp_pointer_tag(p) <= 0 || sexp_pointer_tag(p) >= sexp_context_num_types(ctx)) break;
+      size = sexp_heap_align(sexp_allocated_bytes(ctx, p));
+      if (size == 0 || (char*)p + size > (char*)end) break;
+      t = sexp_object_type(ctx, p);
+      len = sexp_type_num_slots_of_object(t, p);
+      v = (sexp*)(((char*)p) + sexp_type_field_base(t));
+      for (i = 0; i < len; i++) verif_hc_ref(ctx, p, v[i], maps, "slot", (long)i);
+      if (sexp_type_weak_base(t) > 0) {
+        v = (sexp*)((char*)p + sexp_type_weak_base(t));
+        len = sexp_type_num_weak_slots_of_object(t, p) + sexp_type_weak_len_extra(t);
+        for (i = 0; i < len; i++) verif_hc_ref(ctx, p, v[i], maps, "weak", (long)i);
+      }
+      if (sexp_contextp(p))
+        for (saves = sexp_context_saves(p), i = 0; saves; saves = saves->next, i++)
+          if (saves->var) verif_hc_ref(ctx, p, *(saves->var), maps, "saved-local", (long)i);
+      p = (sexp)(((char*)p) + size);
+    }
+  }
+  for (k = 0; k < nheaps; k++) free(maps[k]);
+  free(maps);
+  }
+  if (verif_gclog_mode)
+    sexp_verif_logf("GC n=%ld ctx_gc=%ld heaps=%d heap_bytes=%lu free_bytes=%lu live_bytes=%lu live_objects=%ld free_chunks=%ld max_free=%lu\n",
+                    verif_gc_events, (long)sexp_context_gc_count(ctx), nheaps, (unsigned long)total, (unsigned long)freeb,
+                    (unsigned long)(total - freeb), nobjs, nfree, (unsigned long)maxfree);
+}
+
+/* ------------------------------------------------------------------ */
+/* H2: collection injection                                           */
+
+static __thread int verif_building = 0, verif_ready = 0;  /* root eval contexts of this thread */
+static int verif_inj_mode = -1;       /* 0 off, 1 every, 2 sites, 3 rand, 4 at, 5 window */
+static long verif_inj_a, verif_inj_b;
+static __thread uint64_t verif_rng;
+#define VERIF_SITE_TAB (1<<20)
+static __thread uint64_t *verif_site_keys; static __thread unsigned char *verif_site_cnt;
+static __thread size_t verif_req;     /* requested size of the allocation in progress (H1) */
+
+/* called from eval.c: +1 when construction of a root eval context starts, -1 when it is complete */
+void sexp_verif_hold (int delta) {
+  verif_building += delta;
+  if (verif_building < 0) verif_building = 0;
+  if (delta < 0) verif_ready = 1;
+}
+
+static void verif_inj_init (void) {
+  const char *e = getenv("CHIBI_VERIF_GC");
+  long a = 0, b = 0;
+  verif_inj_mode = 0;
+  if (!e || !*e) return;
+  if (sscanf(e, "every:%ld:%ld", &a, &b) >= 1) verif_inj_mode = 1;
+  else if (sscanf(e, "sites:%ld:%ld", &a, &b) >= 1) { verif_inj_mode = 2; if (b <= 0) b = 6; if (a > 255) a = 255; }
+  else if (sscanf(e, "rand:%ld:%ld", &a, &b) == 2) verif_inj_mode = 3;
+  else if (sscanf(e, "at:%ld", &a) == 1) verif_inj_mode = 4;
+  else if (sscanf(e, "window:%ld:%ld", &a, &b) == 2) verif_inj_mode = 5;
+  verif_inj_a = a; verif_inj_b = b;
+  if (verif_inj_mode) verif_register_atexit();
+}
+
+static __attribute__((noinline)) uint64_t verif_site_hash (long depth) {
+  uintptr_t *fp = (uintptr_t*)__builtin_frame_address(0), *lo = fp;
+  uint64_t h = 1469598103934665603ULL; long d;
+  for (d = 0; d < depth + 2; d++) {
+    uintptr_t *next;
+    if (!fp || ((uintptr_t)fp & 7) || fp < lo || fp > lo + (1<<20)) break;
+    if (d >= 2) { h ^= fp[1]; h *= 1099511628211ULL; }
+    next = (uintptr_t*)fp[0];
+    if (next <= fp) break;
+    fp = next;
+  }
+  return h ? h : 1;
+}
+
+static int verif_should_gc (void) {
+  if (verif_inj_mode < 0) verif_inj_init();
+  if (!verif_inj_mode || !verif_ready || verif_building) return 0;
+  ++verif_alloc_count;
+  switch (verif_inj_mode) {
+  case 1:
+    if (verif_inj_a > 0 && (verif_alloc_count % verif_inj_a) == (verif_inj_b % verif_inj_a)) { verif_forced++; return 1; }
+    return 0;
+  case 2: {
+    uint64_t h = verif_site_hash(verif_inj_b); size_t i = (h * 11400714819323198485ULL) >> 44;
+    if (!verif_site_keys) { verif_site_keys = calloc(VERIF_SITE_TAB, 8); verif_site_cnt = calloc(VERIF_SITE_TAB, 1); }
+    if (verif_nsites >= VERIF_SITE_TAB / 2) return 0;
+    while (verif_site_keys[i] && verif_site_keys[i] != h) i = (i + 1) & (VERIF_SITE_TAB - 1);
+    if (!verif_site_keys[i]) { verif_site_keys[i] = h; verif_nsites++; }
+    if (verif_site_cnt[i] < verif_inj_a) {
+      if (!verif_site_cnt[i]) verif_sites_forced++;
+      verif_site_cnt[i]++; verif_forced++; return 1;
+    }
+    return 0;
+  }
+  case 3:
+    if (!verif_rng) verif_rng = (uint64_t)verif_inj_a * 0x9E3779B97F4A7C15ULL + 0x1234567ULL;
+    verif_rng ^= verif_rng << 13; verif_rng ^= verif_rng >> 7; verif_rng ^= verif_rng << 17;
+    if ((long)(verif_rng % 1000) < verif_inj_b) { verif_forced++; return 1; }
+    return 0;
+  case 4:
+    if (verif_alloc_count == verif_inj_a) { verif_forced++; return 1; }
+    return 0;
+  case 5:
+    if (verif_alloc_count >= verif_inj_a && verif_alloc_count <= verif_inj_b) { verif_forced++; return 1; }
+    return 0;
+  }
+  return 0;
+}
